@@ -285,7 +285,7 @@ fn parse_head(s: &str) -> Option<Head> {
 }
 
 /// Well-formedness beyond the grammar, decided on the op list alone (the Lean driver applies the same rule):
-/// DDL and VACUUM are issued only while no session is open (`reopen` ends every session).
+/// DDL is issued only while no session is open (`reopen` and `vacuum` end every session).
 fn well_formed(ops: &[Op]) -> bool {
     let mut open: Vec<&str> = Vec::new();
     for op in ops {
@@ -296,12 +296,13 @@ fn well_formed(ops: &[Op]) -> bool {
                 }
             }
             Op::Commit(s) | Op::Rollback(s) | Op::Drop(s) => open.retain(|x| x != s),
-            Op::Create(_) | Op::DropTable(_) | Op::Vacuum => {
+            Op::Create(_) | Op::DropTable(_) => {
                 if !open.is_empty() {
                     return false;
                 }
             }
-            Op::Reopen { .. } => open.clear(),
+            // VACUUM rolls back every open transaction: like `reopen` it ends every session
+            Op::Vacuum | Op::Reopen { .. } => open.clear(),
             _ => {}
         }
     }
@@ -619,13 +620,21 @@ fn run_in(dir: &std::path::Path, head: &Head, ops: &[Op]) -> String {
                 }
                 o
             }
-            Op::Vacuum => match db.vacuum() {
-                Ok(_) => "ok".to_string(),
-                Err(e) => {
-                    diag.push(e.to_string().chars().take(100).collect());
-                    err_class(&e.to_string()).to_string()
+            Op::Vacuum => {
+                let o = match db.vacuum() {
+                    Ok(_) => "ok".to_string(),
+                    Err(e) => {
+                        diag.push(e.to_string().chars().take(100).collect());
+                        err_class(&e.to_string()).to_string()
+                    }
+                };
+                // VACUUM has rolled back every open transaction.  The session objects are never finished (leaked, as at a
+                // `reopen leak`): nothing but the VACUUM itself and the close may have recorded their rollback.
+                for (_, s) in std::mem::take(&mut sessions) {
+                    std::mem::forget(s);
                 }
-            },
+                o
+            }
             Op::Burn(n) => {
                 let mut res = "ok".to_string();
                 for _ in 0..*n {
@@ -1407,6 +1416,56 @@ fn gen_refused_commit(rng: &mut Rng) -> Case {
     Case { line: format!("reopen {} | {}", gen_cfg(rng), ops.join(" ; ")), tags }
 }
 
+/// VACUUM while sessions hold uncommitted work: VACUUM rolls them back (in memory) and removes what they wrote; the
+/// session objects are never finished, so nothing but the VACUUM and the close can have recorded the rollback.  With
+/// and without a commit between the sessions' begin and the VACUUM (the commit moves VACUUM's horizon), work after the
+/// VACUUM, close by drop / flush / leak, one or two reopens, reads and key probes.  Clean region.
+fn gen_vacuum_open_session(rng: &mut Rng) -> Case {
+    let mut ops: Vec<String> = vec!["create t(k:big,v:int)".into(), "create u(k:big*,v:int!,w:text)".into()];
+    ops.push("db ins t 1 10 , 2 20 , 3 30".into());
+    ops.push("db ins u 1 1 'a'".into());
+    if rng.chance(1, 3) {
+        ops.push(format!("burn {}", rng.range(1, 30)));
+    }
+    let n_sess = rng.range(1, 2);
+    for i in 1..=n_sess {
+        ops.push(format!("s{} begin", i));
+        ops.push(format!("s{} ins t {} {}", i, 10 + i, i));
+        if rng.chance(1, 2) {
+            ops.push(format!("s{} ins u {} 2 'x'", i, 10 + i));
+        }
+        if i == 1 && rng.chance(1, 3) {
+            ops.push("s1 del t where k eq 1".into());
+        }
+    }
+    if rng.chance(1, 3) {
+        ops.push("db ins t 4 40".into());
+    }
+    if rng.chance(1, 4) {
+        ops.push("tid".into());
+    }
+    ops.push("vacuum".into());
+    if rng.chance(1, 2) {
+        ops.push("db sel t ; db sel u".into());
+    }
+    if rng.chance(1, 3) {
+        ops.push("db ins t 5 50".into());
+    }
+    if rng.chance(1, 4) {
+        ops.push("s3 begin ; s3 ins t 6 60 ; s3 commit".into());
+    }
+    ops.push(format!("reopen {} {}", rng.pick(&["drop", "flush", "leak"]), gen_cfg(rng)));
+    ops.push("tid".into());
+    ops.push("db sel t ; db sel u".into());
+    ops.push("db ins u 11 3 'free' ; db ins u 1 1 'dup' ; db ins t 11 1".into());
+    if rng.chance(1, 2) {
+        ops.push(format!("reopen {} {}", rng.pick(&["drop", "flush"]), gen_cfg(rng)));
+        ops.push("db sel t ; db sel u".into());
+    }
+    let tags: Vec<String> = vec!["vacuum_open_session".into(), "vacuum_before_close".into(), "nt".into(), "clean".into()];
+    Case { line: format!("reopen {} | {}", gen_cfg(rng), ops.join(" ; ")), tags }
+}
+
 impl Engine for ReopenEngine {
     fn gen_cases(&self, rng: &mut Rng, tier: Tier) -> Vec<Case> {
         let quick = tier == Tier::Quick;
@@ -1424,6 +1483,9 @@ impl Engine for ReopenEngine {
         }
         for _ in 0..(if quick { 24 } else { 240 }) {
             out.push(gen_refused_commit(rng));
+        }
+        for _ in 0..(if quick { 24 } else { 240 }) {
+            out.push(gen_vacuum_open_session(rng));
         }
         for _ in 0..(if quick { 2 } else { 6 }) {
             let start = rng.range(0, 200);
